@@ -21,13 +21,14 @@ class Proc(NamedTuple):
     timer_field: str  # Class.field the timer is stored in
     fault: str
     pdu: str | None
+    wait_step: str | None = None
 
 
 PROCS = {
     "eof_ack": Proc("source", "EOF / ACK(EOF) positive-ACK procedure", "_PositiveAckProcedureParams.ack_counter", "ack_counter",
-                    "positive_ack_timer_expiration_limit", "_params.positive_ack_params.ack_timer", "_PositiveAckProcedureParams.ack_timer", "POSITIVE_ACK_LIMIT_REACHED", "EOF"),
+                    "positive_ack_timer_expiration_limit", "_params.positive_ack_params.ack_timer", "_PositiveAckProcedureParams.ack_timer", "POSITIVE_ACK_LIMIT_REACHED", "EOF", "WAITING_FOR_EOF_ACK"),
     "fin_ack": Proc("dest", "Finished / ACK(Finished) positive-ACK procedure", "_PositiveAckProcedureParams.ack_counter", "ack_counter",
-                    "positive_ack_timer_expiration_limit", "_params.positive_ack_params.ack_timer", "_PositiveAckProcedureParams.ack_timer", "POSITIVE_ACK_LIMIT_REACHED", "FINISHED"),
+                    "positive_ack_timer_expiration_limit", "_params.positive_ack_params.ack_timer", "_PositiveAckProcedureParams.ack_timer", "POSITIVE_ACK_LIMIT_REACHED", "FINISHED", "WAITING_FOR_FINISHED_ACK"),
     "nak": Proc("dest", "deferred NAK procedure", "_AckedModeParams.nak_activity_counter", "nak_activity_counter",
                 "nak_timer_expiration_limit", "_params.acked_params.procedure_timer", "_AckedModeParams.procedure_timer", "NAK_LIMIT_REACHED", "NAK"),
     "check": Proc("dest", "check-limit procedure", "_DestFieldWrapper.current_check_count", "current_check_count",
@@ -108,7 +109,15 @@ def check_proc(a: ATS, pid: str, rule: str, proc: Proc, ev: Evidence, out: list[
         for j in zeros:
             if evs[j].args[0] != 0:
                 rep(f"count initialised to {evs[j].args[0]!r}", False, e, f"the expiry count is initialised to {evs[j].args[0]!r}, not 0", evs[j].site)
+        # (1b) the procedure is (re)started whenever its wait step is entered from another step: the count must be zero then
+        if proc.wait_step and e.exc is None and step_of(a, e.pre) not in (proc.wait_step, "RETRANSMITTING") and step_of(a, e.post) == proc.wait_step and e.dst is not None:
+            post = a.h.wget(e.post, proc.timer_path.rsplit(".", 1)[0] + "." + proc.counter_attr)
+            rep(f"wait step {proc.wait_step} entered from {step_of(a, e.pre)}: count {post!r}", post == 0, e,
+                f"the procedure is restarted (step {proc.wait_step} entered from {step_of(a, e.pre)}) with a stale expiry count {post!r}: the limit fault fires early")
         # (2) increments
+        if len(incs) > max(1, len(idx["expired"])):
+            rep(f"{len(incs)} increments for {len(idx['expired'])} observed expiry(ies) in one call", False, e,
+                f"the expiry count is incremented {len(incs)} times in one call although the timer expired {len(idx['expired'])} time(s): the count no longer counts expiries", evs[incs[1]].site)
         for i in incs:
             exp_before = [j for j in idx["expired"] if j < i]
             rst = idx["reset"]
